@@ -4,7 +4,7 @@ import "verif/engine/sym"
 
 func init() {
 	grids["C10"] = &gridDef{
-		explain: "every operation history (Append / Get / GetSince / LastDate / Assets over two asset names) up to the stated length is executed on the real InMemoryRepository, the real FileSystemRepository code and the real SQLRepository code with symbolic snapshot dates (day numbers), symbolic prices and symbolic GetSince bounds; after every operation the result is compared by the solver with a map-of-slices model: order, exact date >= bound filtering, last date, asset listing as a set, errors on unknown / empty, visibility of a returned Append; a second harness (H_C10_Conc) keeps two Append calls on one asset alive at the same time (in-memory and SQL repositories) under three scheduling policies, and with one call's producer held back until the other call has returned (either way round), and checks that, once both have returned, every snapshot of both is visible exactly once and in per-call order",
+		explain: "every operation history (Append / Get / GetSince / LastDate / Assets over two asset names) up to the stated length is executed on the real InMemoryRepository, the real FileSystemRepository code (twice: over a stub of the CSV layer, and with the real helper.Csv layer over a record-level virtual file system incl. a zero-length file) and the real SQLRepository code with symbolic snapshot dates (day numbers), symbolic prices and symbolic GetSince bounds; after every operation the result is compared by the solver with a map-of-slices model: order, exact date >= bound filtering, last date, asset listing as a set, errors on unknown / empty, visibility of a returned Append; a second harness (H_C10_Conc) keeps two Append calls on one asset alive at the same time (in-memory and SQL repositories) under three scheduling policies, and with one call's producer held back until the other call has returned (either way round), and checks that, once both have returned, every snapshot of both is visible exactly once and in per-call order",
 		bounds: func(t string) string {
 			if t == "thorough" {
 				return "all histories of <= 4 operations (10 operation x asset choices per step), with and without a pre-existing asset; dates in [2000-01-01, +9000 days]; concurrent appends of 0..3 and 1..3 snapshots after 0..1 earlier ones, 3 schedules + 2 pacings; single Append calls of 64, 257, 600, 1100 and 2100 snapshots"
@@ -12,20 +12,23 @@ func init() {
 			return "all histories of <= 3 operations (10 choices per step), with and without a pre-existing asset; concurrent appends of 0..2 and 1..2 snapshots after 0..1 earlier ones, 3 schedules + 2 pacings; single Append calls of 64 and 600 snapshots"
 		},
 		outside:     "real SQL drivers (the SQL repository runs over a table model: database/sql entry points stubbed symbolically, a minimal in-process driver in native replays; statement semantics are the model's: rows per asset in insertion order); for the file-system repository the CSV layer (helper.ReadFromCsvFile, AppendOrWriteToCsvFile, os.ReadDir) is replaced by a file-table stub in the symbolic run (the native replay uses a real temporary directory); asset names that are not valid file names; longer histories; interleavings of concurrent calls other than the three scheduling policies' (lock acquisition order is not fixed by happens-before); concurrent appends on the file-system repository (two writers on one file: outside the map model)",
-		assumptions: append([]string{"day-number model of time.Time (Equal/After/Before/AddDate(0,0,d)): whole-day UTC dates as the property's domain states", "stub contract of the CSV layer: a file holds the rows appended to it, in order; reading a missing file is an error", "table contract of the SQL layer (harness/h/c10_sql.go): APPEND inserts a row, GETSINCE returns the asset's rows dated on/after the bound in insertion order, LASTDATE the date of its last inserted row or no row, ASSETS the distinct names", realModeNote}, commonAssumptions...),
+		assumptions: append([]string{"day-number model of time.Time (Equal/After/Before/AddDate(0,0,d)): whole-day UTC dates as the property's domain states", "stub contract of the CSV layer (kind 1): a file holds the rows appended to it, in order; reading a missing file is an error", "virtual file system (kind 3): a file is a list of records; os.Stat size > 0 iff it holds a record; O_APPEND writes after the existing records, other write modes start an empty file; csv.Reader follows the FieldsPerRecord contract; scalars cross the text boundary as tokens, i.e. Parse(Format(x)) = x is assumed of strconv / time (C11's subject)", "table contract of the SQL layer (harness/h/c10_sql.go): APPEND inserts a row, GETSINCE returns the asset's rows dated on/after the bound in insertion order, LASTDATE the date of its last inserted row or no row, ASSETS the distinct names", realModeNote}, commonAssumptions...),
 		cases: func(tier string, pr *prober) []sym.CaseSpec {
 			maxSteps := 3
 			if tier == "thorough" {
 				maxSteps = 4
 			}
 			var out []sym.CaseSpec
-			for kind := 0; kind <= 2; kind++ {
-				for seed := 0; seed <= 2; seed++ {
+			for kind := 0; kind <= 3; kind++ {
+				for seed := 0; seed <= 3; seed++ {
+					if seed == 3 && kind != 3 {
+						continue // a zero-length file exists only for the virtual file system
+					}
 					pow := 1
 					for steps := 1; steps <= maxSteps; steps++ {
 						pow *= 10
-						if seed == 2 && steps >= maxSteps {
-							continue // the three-snapshot seed only with shorter histories
+						if seed >= 2 && steps >= maxSteps {
+							continue // the three-snapshot and zero-length-file seeds only with shorter histories
 						}
 						for code := 0; code < pow; code++ {
 							c := cs("H_C10", kind, steps, code, seed)
@@ -40,7 +43,7 @@ func init() {
 			if tier == "thorough" {
 				bulk = []int{64, 257, 600, 1100, 2100}
 			}
-			for kind := 0; kind <= 2; kind++ {
+			for kind := 0; kind <= 3; kind++ {
 				for _, n := range bulk {
 					c := cs("H_C10_Bulk", kind, n)
 					c.MaxSteps = 40000000
